@@ -3,7 +3,9 @@ package c02
 import (
 	"encoding/json"
 	"fmt"
+	"github.com/go-kid/ioc/app"
 	"os"
+	"reflect"
 	"testing"
 
 	"pgregory.net/rapid"
@@ -36,8 +38,27 @@ func decide(t fataler, s *graph.Scenario, tag string) {
 	// stateless (zero-size) components next to the nodes: members of every qualified slice
 	nst := int((s.OrdSeed>>3)+uint64(len(s.Nodes))) % 4
 	in.Extra = append(in.Extra, zoo.Stateless(nst)...)
+	// now and then single-valued points already hold a stand-in (an object that is no component of this container -
+	// a constructor default, the leftover of an earlier container) when the start begins: the container still
+	// populates them with their targets
+	prefilled := 0
+	if (s.OrdSeed>>7)%4 == 0 {
+		for i, c := range in.Comps {
+			v := reflect.ValueOf(c).Elem()
+			for _, fn := range []string{"Nx", "G", "BN", "NQ"} {
+				f := v.FieldByName(fn)
+				if f.IsValid() && f.CanSet() && f.Kind() == reflect.Interface && (i+len(fn)+int(s.OrdSeed>>9))%2 == 0 {
+					w := reflect.ValueOf(&zoo.W{TargetID: -7, When: "prefilled"})
+					if w.Type().AssignableTo(f.Type()) {
+						f.Set(w)
+						prefilled++
+					}
+				}
+			}
+		}
+	}
 	in.Run()
-	desc := fmt.Sprintf("%s %s stateless=%d", tag, s.Shape(), nst)
+	desc := fmt.Sprintf("%s %s stateless=%d prefilled=%d", tag, s.Shape(), nst, prefilled)
 	if in.Out.Panic != nil {
 		if b, ok := in.Out.Panic.(graph.BudgetExceeded); ok {
 			t.Fatalf("C02: start-up did not terminate within its step budget: %v\nscenario: %s", b, desc)
@@ -74,6 +95,20 @@ func decide(t fataler, s *graph.Scenario, tag string) {
 			un, _ := g.Unsatisfied()
 			t.Fatalf("C02: required point(s) %v can only be satisfied by nothing / their own holder, yet start-up succeeded\nscenario: %s", un, desc)
 		}
+	}
+	if in.Out.Err == nil && prefilled > 0 {
+		// a point without any admissible component is left untouched: its pre-filled content is not the container's doing
+		for _, c := range g.Pop {
+			for _, p := range g.Points[c] {
+				// ... and so is every point of a lazy component that nobody has created yet (it is populated by its lookup below)
+				if (len(p.Cands) == 0 || (c.ID >= 0 && c.Lazy && !in.WasCreated(c.ID))) && !p.Multi {
+					if w, isW := p.FieldValue().Interface().(*zoo.W); isW && w.When == "prefilled" {
+						p.FieldValue().Set(reflect.Zero(p.Field.Type))
+					}
+				}
+			}
+		}
+		labels = append(labels, "prefilled-single-points")
 	}
 	if in.Out.Err == nil {
 		// every populated point holds admissible targets only, required ones hold theirs, and slices hold ALL of theirs
@@ -353,5 +388,45 @@ func drawZPar(t *rapid.T, s *graph.Scenario) {
 		} else {
 			s.ZPar[i] = s.Z[rapid.IntRange(0, len(s.Z)-1).Draw(t, "par")]
 		}
+	}
+}
+
+// ---------------------------------------------------------------------------------------------------
+// scale: "cycles of any length". Every member refers to every other one (a slice point), so the creation of the first
+// one nests through all of them before anything completes.
+
+type DeepMember struct {
+	N     int
+	Peers []*DeepMember `wire:""`
+	Inits int
+}
+
+func (m *DeepMember) Naming() string { return fmt.Sprintf("deep-%04d", m.N) }
+func (m *DeepMember) Init() error    { m.Inits++; return nil }
+
+func TestStaticDeepCycles(t *testing.T) {
+	kit.Rec.Rule(rule)
+	for _, n := range []int{3, 600, 1300} {
+		ms := make([]any, n)
+		for i := range ms {
+			ms[i] = &DeepMember{N: i}
+		}
+		out := kit.RunApp(app.SetComponents(ms...))
+		desc := fmt.Sprintf("%d components of one type, each with a slice point of that type (a complete graph of cycles)", n)
+		if !out.OK() {
+			s := out.String()
+			if len(s) > 400 {
+				s = s[:400]
+			}
+			kit.DumpReplay("c02-deep-cycles", map[string]any{"scenario": desc, "outcome": s})
+			t.Fatalf("C02: %s: start-up must succeed, got %s", desc, s)
+		}
+		for _, c := range ms {
+			m := c.(*DeepMember)
+			if len(m.Peers) != n-1 || m.Inits != 1 {
+				t.Fatalf("C02: %s: member %d holds %d peers (want %d), Init ran %d times", desc, m.N, len(m.Peers), n-1, m.Inits)
+			}
+		}
+		kit.Rec.Case(desc, n > 3, "deep-cycles")
 	}
 }
